@@ -689,6 +689,12 @@ def check_sym_case(case: dict[str, Any], col: common.Collector) -> None:
     if vals is None:
         vals = [dict.fromkeys(params, 3)]
         vals += [{p: rng.randrange(0, 7) for p in params} for _ in range(2)]
+    # (an integer zero divisor at some size is a SIGFPE in the binary: leave that size out)
+    vals = [v for v in vals if not ps.integer_zero_divisor(symgen.instantiate(spec, v), 0)]
+    if not vals:
+        col.count("skipped_zero_divisor")
+        col.case()
+        return
     try:
         base = sym_variant(spec, None, vals)
     except Exception as e:  # noqa: BLE001  -- C16's business
